@@ -151,6 +151,10 @@ def build_shape(spec):
     if spec.get("rotate"):
         ang, ax, org = spec["rotate"]
         s.rotate(ang, ax, org)
+    if spec.get("mirror"):
+        # the second half of a symmetric geometry: a shape mirrored about a coordinate plane (exact in floats)
+        nrm, org = spec["mirror"]
+        s.mirror(nrm, org)
     for side, name in (spec.get("patches") or {}).items():
         s.set_patch(side, name)
     return s
@@ -238,6 +242,15 @@ def gen_axis_radius(rng):
 
 
 def gen_round(rng, kind=None):
+    spec = _gen_round(rng, kind)
+    if rng.random() < 0.3:
+        e = [0.0, 0.0, 0.0]
+        e[rng.randrange(3)] = 1.0
+        spec["mirror"] = [e, [float(rng.randint(-2, 2)) for _ in range(3)]]
+    return spec
+
+
+def _gen_round(rng, kind=None):
     kind = kind or rng.choice(["cylinder", "cylinder", "semicylinder", "frustum", "elbow"])
     p1 = [float(rng.randint(-4, 4)) for _ in range(3)]
     ax, rv = gen_axis_radius(rng)
@@ -543,6 +556,20 @@ def rot_rodrigues(v, axis, ang, origin=None):
 
 def round_disks(spec):
     """[(centre, normal, radius)] for start and end face, from the constructor arguments only"""
+    disks = _round_disks(spec)
+    if spec.get("mirror"):
+        e, o = spec["mirror"]
+
+        def mp(p):
+            return sub(p, mul(2 * dot(sub(p, o), e), e))
+
+        def mv(v):
+            return sub(v, mul(2 * dot(v, e), e))
+        disks = [(mp(c), mv(n), r) for (c, n, r) in disks]
+    return disks
+
+
+def _round_disks(spec):
     k, a = spec["kind"], spec["args"]
     if k in ("cylinder", "semicylinder", "frustum"):
         p1, p2, rp = a[0], a[1], a[2]
@@ -1176,7 +1203,9 @@ class C18(Prop):
         ocases = []
         hull_bad = 0
         for bi in range(n_blocks):
-            C, views = gen_block(rng)
+            # every third block is looked at from far off its faces' directions (the side that faces the observer is then
+            # well aligned with two viewing axes at once)
+            C, views = gen_block(rng, max_tilt=(0.9 if bi % 3 == 2 else 0.45))
             views = views[:n_views]
             for (obs, cei) in views:
                 outs = set()
